@@ -26,8 +26,8 @@ out.append("Independent sub-agents were given only the text of one property and 
            "passes without it) and then run against the checks (`lib/seed.py`; patch, demonstration and meta.json are under "
            "`/verif/seeded/<name>/`). The last column is the result of the *current* quick checks with the change applied: every "
            "change was first run against /repo itself (`git -C /repo apply`, `./check`, `git -C /repo checkout -- .`; rounds 1-2) "
-           "or against a scratch worktree with a copy of /verif built against it (`lib/seed_iso.py`; rounds 3-5), and at the end "
-           "of round 5 all 60 were re-run in isolated copies against the final checks.\n")
+           "or against a scratch worktree with a copy of /verif built against it (`lib/seed_iso.py`; rounds 3-6); at the end "
+           "of round 5 all 60 changes of rounds 1-5 were re-run in isolated copies against the checks of that moment.\n")
 out.append("| seeded change | property | what it does | what it needs to manifest | quick checks |")
 out.append("|---|---|---|---|---|")
 out += rows
@@ -63,6 +63,15 @@ out.append("Changes that the first version of a check **missed** and what was st
            "alphabets -- and a defect of the harness itself: it classified each line with the interpreter's lexer "
            "outside its panic guard, the script's thread died and the session was recorded as finished; the call is "
            "guarded now and a script thread that ends without reporting the end counts as a panic); "
+           "round 6: C19-agent4 (deleting a referenced line by its bare number while a stopped program is continuable no longer "
+           "cancels CONT: sessions in which an edit introduces the fault after STOP, then CONT / RETURN / NEXT / RUN / GOTO, in "
+           "C19), C03-agent4 (TAB(0) divides by zero: a stage with every built-in function and every statement taking a number, "
+           "with boundary arguments, in C03), C05-agent4 (LOAD refuses a line of exactly 1024 bytes that the prompt accepts: "
+           "the SAVE-then-LOAD relation through Listing::load_str for every numbered line of C05's cases, and lines at the "
+           "limit), C10-agent4 (a call in the last position of a function body reuses the frame, so runaway recursion never "
+           "ends: such a definition among the templates of MC_Prog C10), C11-agent4 (a keyboard poll resets the print column: "
+           "INKEY$ -- no key pressed -- entered the specification, the harness answers the poll, PRINT templates with a poll "
+           "before TAB / zones / POS); "
            "C04-agent1 was caught only "
            "through an identity RENUM, where the specification demanded more than the property (see I.5) -- the specification "
            "was relaxed there and MC_C14 got a RENUM that moves earlier lines but not the last, a failing statement and a direct "
